@@ -1,8 +1,9 @@
 (* C09 — Conversions, reversal, copies and edge-list constructors keep edges and labels.  Statements only; proofs in ConvProofs.v.
-   PARTIAL: reversal, double reversal and the edge-list constructor are proved for the directed labelled model (every label type);
-   getDirectedGraph, undirected-from-directed, their round trip and the constructors of the other classes are tied to the implementation
-   and to the spec images (s_direct, s_undirect, folds of the spec insertions) by the correspondence check only. *)
-From BG Require Import Base DirectedModel DirectedProofs UndirectedModel Equality ConvProofs.
+   Proved (every label type): reversal, double reversal and the edge-list constructor of the directed labelled model (ConvProofs.v);
+   getDirectedGraph, undirected-from-directed and their round trip (UFoldProofs.v, UConvProofs.v).
+   PARTIAL: the edge-list constructors of the other seven classes and copy/assignment are tied to the implementation and to the spec
+   images by the correspondence check only. *)
+From BG Require Import Base DirectedModel DirectedProofs UndirectedModel UndirectedProofs Equality ConvProofs UFoldProofs UConvProofs.
 
 (* getReversedGraph of any graph satisfying the invariant (zero vertices and isolated vertices included) is defined, has the same size,
    contains exactly (j,i) for every edge (i,j), and (j,i) carries the label of (i,j) *)
@@ -38,3 +39,30 @@ Example C09_refuted_on_pinned :
 Proof. vm_compute. auto. Qed.
 Example C09_example : omap (fun h => (size h, adj h)) (of_edge_list true repaired [(0, 2, 5%Z); (2, 1, 7%Z); (0, 2, 9%Z); (4, 4, 1%Z)]) = Val (5, [[2]; []; [1]; []; [4]]).
 Proof. vm_compute. reflexivity. Qed.
+
+(* ---- conversions between the directed and the undirected class ---- *)
+(* getDirectedGraph: same size, both orientations of every edge (a loop once), each carrying the label of the undirected edge *)
+Theorem C09_get_directed_graph : forall (L : Type) (ldef : L) hs (g : @dgraph L), InvU hs g ->
+  exists d, to_directed ldef hs repaired true g = Val d /\ Inv hs d /\ KeysOK d /\ size d = size g /\
+    (forall i j, In j (nb d i) <-> In j (nb g i)) /\
+    (hs = true -> forall i j, lfind (i, j) (labels d) = if mem j (nb g i) then lfind (ordered i j) (labels g) else None) /\
+    (forall i j, In j (nb g i) -> get_label ldef hs d i j true = u_get_label ldef hs g i j true).
+Proof. intros L ldef hs g. exact (to_directed_spec ldef hs g). Qed.
+Print Assumptions C09_get_directed_graph.
+(* LabeledUndirectedGraph(const Directed&): {i,j} present iff (i,j) or (j,i) is; when both orientations exist the label is that of the
+   orientation whose source is the smaller vertex (the constructor loops over sources in ascending order) *)
+Theorem C09_undirected_from_directed : forall (L : Type) (ldef : L) hs (d : @dgraph L), Inv hs d ->
+  exists u, of_directed ldef hs repaired d = Val u /\ InvU hs u /\ KeysOK u /\ size u = size d /\
+    (forall i j, In j (nb u i) <-> In j (nb d i) \/ In i (nb d j)) /\
+    (hs = true -> forall i j, i <= j ->
+       lfind (i, j) (labels u) = if mem j (nb d i) then lfind (i, j) (labels d) else if mem i (nb d j) then lfind (j, i) (labels d) else None) /\
+    (forall i j, i <= j -> (In j (nb d i) \/ In i (nb d j)) ->
+       u_get_label ldef hs u i j true = if mem j (nb d i) then get_label ldef hs d i j true else get_label ldef hs d j i true).
+Proof. intros L ldef hs d. exact (of_directed_spec ldef hs d). Qed.
+Print Assumptions C09_undirected_from_directed.
+(* undirected -> directed -> undirected compares equal (operator==) to the original *)
+Theorem C09_undirected_round_trip : forall (L : Type) (leqb : L -> L -> bool) (ldef : L) hs (g : @dgraph L),
+  (forall x, leqb x x = true) -> InvU hs g -> KeysOK g ->
+  exists d u, to_directed ldef hs repaired true g = Val d /\ of_directed ldef hs repaired d = Val u /\ graph_eqb leqb u g = Val true.
+Proof. intros L leqb ldef hs g. exact (undirected_round_trip leqb ldef hs g). Qed.
+Print Assumptions C09_undirected_round_trip.
